@@ -330,12 +330,28 @@ def _to_ast(v):
     return ast.Constant(v)
 
 
+def _copy_tree(node):
+    """Structural copy of an AST (fields and positions only; the index's
+    parent back-pointers are not followed)."""
+    if isinstance(node, list):
+        return [_copy_tree(x) for x in node]
+    if not isinstance(node, ast.AST):
+        return node
+    new = type(node)()
+    for f in node._fields:
+        if hasattr(node, f):
+            setattr(new, f, _copy_tree(getattr(node, f)))
+    for a in node._attributes:
+        if hasattr(node, a):
+            setattr(new, a, getattr(node, a))
+    return new
+
+
 def subst_eval(repo, module, expr, mapping, cls=None):
     """Fold `expr` after replacing every sub-expression whose source text is a
     key of `mapping` by the mapped constant (e.g. {'self.lang': 'c++'}).
     Subscripts of constant dicts and `in` tests are folded too."""
-    import copy
-    e = _Subst(mapping).visit(copy.deepcopy(expr))
+    e = _Subst(mapping).visit(_copy_tree(expr))
     ast.fix_missing_locations(e)
     return _fold2(repo, module, e, cls)
 
